@@ -149,15 +149,32 @@ impl serde::Serialize for Value {
     }
 }
 
+/// Exact comparison of an integer with a float; NaN is the greatest value, as for `OrderedFloat`.
+/// Converting the integer to f64 first would make different numbers compare equal (2^53 + 1 and
+/// 2^53 as a float, i64::MAX and 2^63), which leaves the order of such rows and groups to chance.
+fn cmp_int_float(i: i64, f: f64) -> Ordering {
+    if f.is_nan() || f >= 9223372036854775808.0 {
+        return Ordering::Less;
+    }
+    if f < -9223372036854775808.0 {
+        return Ordering::Greater;
+    }
+    let whole = f.trunc();
+    match i.cmp(&(whole as i64)) {
+        Ordering::Equal => 0.0.partial_cmp(&(f - whole)).unwrap_or(Ordering::Equal),
+        unequal => unequal,
+    }
+}
+
 impl Ord for Value {
     fn cmp(&self, other: &Self) -> Ordering {
         match (self, other) {
-            // Ints and floats are converted to floats
+            // Ints and floats are compared by their exact numeric values
             (Value::Int(int_val), Value::Float(float_val)) => {
-                (OrderedFloat::from(*int_val as f64)).cmp(float_val)
+                cmp_int_float(*int_val, float_val.into_inner())
             }
             (Value::Float(float_val), Value::Int(int_val)) => {
-                float_val.cmp(&OrderedFloat::from(*int_val as f64))
+                cmp_int_float(*int_val, float_val.into_inner()).reverse()
             }
             (Value::Float(l), Value::Float(r)) => l.cmp(r),
             (Value::Int(l), Value::Int(r)) => l.cmp(r),
